@@ -231,4 +231,51 @@ theorem sortHeaders_parent_adjacent (hs out : List FileRec) (h : sortHeaders hs 
   · right; rw [b] at h2; exact ⟨a, h2⟩
   · left; rw [b] at h2; exact ⟨p1, d, run, e', hd, hrun, h2.symm⟩
 
+/-! ## evaluating `sortHeaders` on literals
+
+`sortChildren` is compiled by well-founded recursion, so `decide` cannot run it; these equations let a
+proof script evaluate it level by level (used for the `example`s that show hypotheses are satisfiable). -/
+
+theorem sortTexts_sorted (l : List Text) (h : l.Pairwise (fun a b => textLe a b = true)) : sortTexts l = l :=
+  List.mergeSort_of_pairwise h
+
+def filesOf (hs : List FileRec) (sorted : List Text) : List FileRec :=
+  (sorted.filterMap (lookupHeader hs)).filter (fun h => !h.isDir)
+
+def dirsOf (hs : List FileRec) (sorted : List Text) : List (Text × FileRec) :=
+  sorted.filterMap fun n => match lookupHeader hs n with
+    | some h => if h.isDir then some (n, h) else none
+    | none => none
+
+theorem sortChildren_eval (hs : List FileRec) (fuel : Nat) (children : List Text) (out : List FileRec)
+    (h1 : children.Pairwise (fun a b => textLe a b = true))
+    (h4 : sortChildren.go hs fuel (dirsOf hs children) = some out) :
+    sortChildren hs (fuel + 1) children = some (filesOf hs children ++ out) := by
+  rw [sortChildren.eq_2, sortTexts_sorted children h1]
+  show Option.map _ (sortChildren.go hs fuel (dirsOf hs children)) = _
+  rw [h4]
+  simp [filesOf]
+
+theorem sortChildren_eval' (hs : List FileRec) (fuel : Nat) (children sorted : List Text) (out : List FileRec)
+    (h1 : sortTexts children = sorted)
+    (h4 : sortChildren.go hs fuel (dirsOf hs sorted) = some out) :
+    sortChildren hs (fuel + 1) children = some (filesOf hs sorted ++ out) := by
+  rw [sortChildren.eq_2, h1]
+  show Option.map _ (sortChildren.go hs fuel (dirsOf hs sorted)) = _
+  rw [h4]
+  simp [filesOf]
+
+theorem go_eval_cons (hs : List FileRec) (fuel : Nat) (n : Text) (h : FileRec) (rest : List (Text × FileRec))
+    (sub tl : List FileRec) (h1 : sortChildren hs fuel (childrenOf hs n) = some sub)
+    (h2 : sortChildren.go hs fuel rest = some tl) :
+    sortChildren.go hs fuel ((n, h) :: rest) = some (h :: sub ++ tl) := by
+  rw [sortChildren.go.eq_2, h1, h2]
+
+theorem sortHeaders_nil : sortHeaders [] = some [] := by
+  unfold sortHeaders
+  simp only []
+  rw [show (dedupTexts (([] : List FileRec).map fun h => pathDir (pathClean h.name))).filter
+      (fun d => pathDir d = ['.']) = [] by decide, sortTexts_sorted _ (by decide)]
+  exact sortChildren_eval [] _ [] [] (by decide) (sortChildren.go.eq_1 _ _)
+
 end Apko.Formats
